@@ -234,6 +234,29 @@ def run(line):
         app = nt(*args)
         res = nt.assert_matches(app)
         return ('1' if nt(*res) == app else '0') + ' ' + tup(res)
+    if op == 'HIST':
+        # a sequence of matches in THIS process, deliberately repeating requests; nothing is cleared in between.
+        # Every returned dict is kept and re-read at the end: a later call must not have changed it.
+        outs, kept = [], []
+        for _ in range(r.int()):
+            kind = r.next()
+            if kind == 'MS':
+                p = build(r.term())
+                i = build(r.term())
+                d = {k: build(v) for k, v in r.delta()}
+                res = P.match_single(p, i, d)
+            else:
+                eqs = []
+                for _j in range(r.int()):
+                    p = build(r.term())
+                    eqs.append((p, build(r.term())))
+                res = P.match(eqs)
+            s = 'NONE' if res is None else showdict(res)
+            outs.append(s)
+            kept.append((res, s))
+        if any(res is not None and showdict(res) != s for res, s in kept):
+            outs.append('ALIASED')
+        return ' | '.join(outs)
     if op == 'NC':
         nt = mk_notation(r)
         args = [build(t) for t in r.tuple()]
